@@ -550,7 +550,7 @@ class Interp(Engine):
                     self.cur_frame = saved
         if func.key.endswith("swc_utils/base.py:traverse") and func.key != self.cur_key:
             cb = [kwargs.get("enter"), kwargs.get("leave")]
-            if any(x is not None and not isinstance(x, Callback) for x in cb):
+            if any(x is not None and not isinstance(x, Callback) for x in cb) and not (cc is not None and cc.options.get("modular_traverse_ok")):
                 # a modular `traverse` contract cannot account for what real callbacks do to the caller's state
                 raise Unsupported("call of traverse with real callbacks: the carrier's contract needs options['traverse_rule']")
         c = self.registry.get(func.key)
